@@ -87,6 +87,38 @@ def run(ctx):
                               {"main.nano": text, "nanoc.stdout": o.nanoc.out, "native.stdout": o.native.out})
         ctx.require(sum(1 for v in census_out.values() if v == "equal") >= 20, "census: too few comparable cells")
 
+        # ---- grouping table: every (outer, inner) operator pair, evaluator vs binary -----------
+        from .c02 import nesting_programs, NEST_TRIPLES
+        group_cells = 0
+
+        def do_nest(c):
+            name, text, exp, ncell = c
+            return c, engines.observe(plain, sc.sub("nest/" + name), {"main.nano": text}, vm=False, verbose=True)
+
+        for (name, text, exp, ncell), o in pmap(do_nest, nesting_programs(shadow_driven=True)):
+            if not o.built:
+                ctx.violation("group|%s|build" % name, "grouping table %s does not compile: %s" % (name, engines.classify_nanoc_failure(o.nanoc)),
+                              {"main.nano": text, "nanoc.stderr": o.nanoc.err, "nanoc.stdout": o.nanoc.out})
+                continue
+            mi = re.search(r"<<S\n(.*?)>>E\n", o.nanoc.text(), re.S)
+            mn = re.search(r"<<S\n(.*?)>>E\n", o.native.text(), re.S)
+            if not mi or not mn:
+                ctx.violation("group|%s|truncated" % name, "grouping table %s: %s output has no complete segment" % (name, "evaluator" if not mi else "binary"),
+                              {"main.nano": text, "nanoc.stdout": o.nanoc.out, "native.stdout": o.native.out})
+                continue
+            il, nl_ = mi.group(1).splitlines(), mn.group(1).splitlines()
+            if len(il) != ncell or len(nl_) != ncell:
+                ctx.violation("group|%s|line-count" % name, "grouping table %s: evaluator printed %d lines, binary %d, expected %d" % (name, len(il), len(nl_), ncell),
+                              {"main.nano": text, "nanoc.stdout": o.nanoc.out, "native.stdout": o.native.out})
+                continue
+            group_cells += ncell
+            for a, b, w in [(a, b, w) for a, b, w in zip(il, nl_, exp.splitlines()) if a != b][:50]:
+                form, outer, inner, pos, t = w.split()[:5]
+                ctx.violation("group|%s|%s|%s|%s" % (form, outer, inner, pos),
+                              "grouping: %s form, outer %s, inner %s (position %s), operands %s: evaluator printed '%s', binary printed '%s' (specification: '%s')" % (
+                                  form, outer, inner, pos, NEST_TRIPLES[int(t)], a, b, w), {"main.nano": text})
+        ctx.require(group_cells > 1000, "grouping tables incomplete (%d cells)" % group_cells)
+
         # ---- sweep ----------------------------------------------------------------------------
         n = ctx.n(200, 4000)
         batch = sweep.gen_batch(ctx, n, features=SWEEP_FEATURES)
@@ -185,7 +217,8 @@ def run(ctx):
                 samples.append({"index": i, "block": fn0, "evaluator_segment": si.get(fn0, "")[:300], "binary_segment": strip_asserts(sn.get(fn0, ""))[0][:300]})
         ctx.require(blocks >= n, "too few shadow blocks compared (%d)" % blocks)
         return ctx.finish({
-            "evaluations": len(batch) + len(census_out),
+            "evaluations": len(batch) + len(census_out) + group_cells,
+            "grouping_cells_compared": group_cells,
             "distinct_nontrivial": len(fsets) + sum(1 for v in census_out.values() if v == "equal"),
             "rule": "distinct feature sets of programs with >= 2 shadow blocks whose evaluator text equalled the binary's, plus census cells compared equal",
             "programs": len(batch),
